@@ -238,6 +238,8 @@ class FitYamlReader(YamlReaderMixin, FitDReprBase):
 
         if _read_parametric_model is not None:
             _fit_object._param_model = _read_parametric_model
+            # changes of the uncertainties of the model that was read have to reach the fit
+            _fit_object._param_model._on_error_change_callback = _fit_object._on_error_change
 
         _dynamic_error_algorithm = yaml_doc.pop("dynamic_error_algorithm", None)
         if _dynamic_error_algorithm is not None:
